@@ -892,15 +892,17 @@ class Run:
             raise Unsupported("for/else over a symbolic sequence")
         self.check(inv.holds(self, env), f"loop invariant holds on entry (line {s.lineno})")
         inv.havoc(self, env)
-        self.assign(s.target, src.next_elem(self), env)
-        if hasattr(inv, "step"):
-            inv.step(self, env)
-        try:
-            self.exec_block(s.body, env)
-        except _Break:
-            raise Unsupported("break inside a loop over a symbolic sequence")
-        except _Continue:
-            pass
+        x = src.next_elem(self)
+        if x is not self.engine.models.SKIP:
+            self.assign(s.target, x, env)
+            if hasattr(inv, "step"):
+                inv.step(self, env)
+            try:
+                self.exec_block(s.body, env)
+            except _Break:
+                raise Unsupported("break inside a loop over a symbolic sequence")
+            except _Continue:
+                pass
         self.check(inv.holds(self, env), f"loop invariant preserved by an arbitrary iteration (line {s.lineno})")
         inv.havoc(self, env)
         if hasattr(inv, "done"):
@@ -1434,14 +1436,23 @@ class Run:
         g0 = e.generators[0]
         src = self.eval(g0.iter, env)          # the outermost iterable is evaluated at creation time
         if isinstance(src, (VSymIter, VSymList)):
-            if len(e.generators) != 1 or g0.ifs:
-                raise Unsupported("generator expression with filter over a symbolic sequence")
+            if len(e.generators) != 1:
+                raise Unsupported("nested generator expression over a symbolic sequence")
 
             def nxt(run, src=src):
                 cenv = env.child()
-                run.assign(g0.target, src.next_elem(run), cenv)
+                x = src.next_elem(run)
+                if x is run.engine.models.SKIP:
+                    return x
+                run.assign(g0.target, x, cenv)
+                for c in g0.ifs:
+                    if not run.is_true(run.eval(c, cenv)):
+                        return run.engine.models.SKIP
                 return run.eval(e.elt, cenv)
-            return VSymIter(nxt, "generator")
+            out = VSymIter(nxt, "generator" if not g0.ifs else "filtered-generator", source=src if not g0.ifs else None)
+            if not g0.ifs and isinstance(src, VSymList):
+                self.engine.models.b_len(self, src)
+            return out
         return VIter(self._comp(e, env, lambda ce: self.eval(e.elt, ce), first=src), "generator")
 
     def e_DictComp(self, e, env):
